@@ -73,3 +73,39 @@ Proof.
   split; [vm_compute; reflexivity|]. split; [exact vclock_total|].
   destruct (C01_new_ok ex_cfg (fun _ => 0) 0%Z) as (s & Hs & _); [vm_compute; reflexivity|eauto].
 Qed.
+
+(** ** the std::time clock (known finding F6 made precise)
+
+    [Framework<_, _, std::time::Instant>] adds Durations with `+=`; that addition
+    overflows (and panics) once the accumulated blocked time exceeds
+    Duration::MAX (2^64 s). [C01_std_only_duration] shows this is the ONLY way a
+    call can fail with the std clock: for every valid configuration, state,
+    batch, time and tape the call returns (with the invariant, no pending signal
+    and the same step bound), or it panics with exactly that overflow -- never
+    an index, unwrap or fuel failure. [stdclock_not_total] is the witness that
+    the overflow exists. *)
+From MB Require Import Model.Sim.
+From MB Require Proofs.FrameworkTotalStd.
+
+Theorem C01_std_only_duration : forall c tp s evs t,
+  valid_cfg c = true -> clk c = stdclock -> Inv c s ->
+  (exists s' acts, trigger_events c tp s evs t = Ok (s', acts) /\ Inv c s' /\ sigp s' = None)
+  \/ trigger_events c tp s evs t = Panic P_DURATION.
+Proof.
+  intros c tp s evs t H Hk HI.
+  exact (FrameworkTotalStd.trigger_events_total_std c tp s evs t (valid_cfg_machines_ok c H) Hk HI).
+Qed.
+Print Assumptions C01_std_only_duration.
+
+Theorem C01_std_history : forall c tp h s,
+  valid_cfg c = true -> clk c = stdclock -> Inv c s ->
+  (exists s' outs, run c tp s h = Ok (s', outs) /\ Inv c s' /\ length outs = length h)
+  \/ run c tp s h = Panic P_DURATION.
+Proof.
+  intros c tp h s H Hk HI.
+  apply FrameworkTotalStd.run_total_dur; [exact (valid_cfg_machines_ok c H)| |exact HI].
+  rewrite Hk. exact FrameworkTotalStd.stdclock_dur.
+Qed.
+
+Lemma C01_std_overflow_exists : ~ clock_total stdclock.
+Proof. exact FrameworkTotalStd.stdclock_not_total. Qed.
